@@ -47,7 +47,7 @@ def build_cmd(kind, k):
             "dt": lambda: led.QueryFastFadeTime(a)}[kind]()
 
 
-def make_hid_world(driver, kinds, exc_on, limit, ret, nloss=1, tail=0, start_seq=1, cancel=False):
+def make_hid_world(driver, kinds, exc_on, limit, ret, nloss=1, tail=0, start_seq=1, cancel=False, cancel_who=0, eager=False):
     def make():
         from dalimc.aio.hidworld import HidWorld
         cmds = [build_cmd(kd, i + 1) for i, kd in enumerate(kinds)]
@@ -76,13 +76,14 @@ def make_hid_world(driver, kinds, exc_on, limit, ret, nloss=1, tail=0, start_seq
             else:
                 async def co(w, c=c):
                     return await w.driver.send(c)
-            callers.append(Caller(f"c{i + 1}", co, cancellable=(cancel and i == 0)))
+            callers.append(Caller(f"c{i + 1}", co, cancellable=(cancel and i == cancel_who)))
         w = HidWorld(driver, bus, callers, start_seq=start_seq, reconnect_limit=limit, exceptions_on_send=exc_on,
                      loss=nloss > 0, returns=ret)
         w.loss_budget = nloss
         w.cmds = cmds
         w.gens = gens
         w.timer_budget = 9
+        w.eager_start = eager           # all callers queued back to back: the cancellation can hit one that still waits for the lock
         w.tail_n = tail
         w.tail_results = []
         if tail:
@@ -159,7 +160,7 @@ def judge_hid(res, cfg, w, obs):
             pending.append(i)
             if connected_end and oc[0] == "pending":
                 add_violation(res, f"C17:{tag}:caller-hangs", f"{cfg}: {who} still pending although the driver is connected at quiescence (events {w.trace[-10:]})", case)
-        elif oc[0] == "cancelled" and not (cfg.get("cancel") and i == 0):
+        elif oc[0] == "cancelled" and not (cfg.get("cancel") and i == cfg.get("cancel_who", 0)):
             add_violation(res, f"C17:{tag}:caller-cancelled", f"{cfg}: {who} cancelled by nobody", case)
     import inspect
     for gi, g in w.gens.items():
@@ -352,6 +353,9 @@ def shards(tier):
         for kinds in (("num",), ("twice",), ("dt",), ("num", "num")):
             for start_seq in (1, 0xFE):
                 out.append(("cancel", drv, kinds, start_seq, 2 if (tier != "quick" or kinds == ("num", "num")) else 1))
+        # a caller cancelled while it is still QUEUED for the lock behind one in flight (all callers started back to back)
+        for kinds, who in ((("num", "num"), 1), (("num", "num", "num"), 1), (("dt", "num", "off"), 1), (("num", "off", "num"), 2)):
+            out.append(("cancel", drv, kinds, 1, 1 if tier == "quick" else 2, who))
     for drv in ("luba", "sci"):
         for kind in ("num", "off", "twice", "dt"):
             for silent in ("confirm", "answer"):
@@ -381,9 +385,11 @@ def run_shard(shard):
             res["traces"] += 1
             res["transitions"] += len(w.trace)
     elif k == "cancel":
-        _, drv, kinds, start_seq, bound = shard
-        cfg = dict(driver=drv, kinds=list(kinds), exc_on=True, limit=None, ret=False, cancel=True, start_seq=start_seq, bound=bound)
-        mk = make_hid_world(drv, kinds, True, None, False, nloss=0, tail=300, start_seq=start_seq, cancel=True)
+        _, drv, kinds, start_seq, bound = shard[:5]
+        who = shard[5] if len(shard) > 5 else 0
+        cfg = dict(driver=drv, kinds=list(kinds), exc_on=True, limit=None, ret=False, cancel=True, start_seq=start_seq, bound=bound,
+                   cancel_who=who, eager=who > 0)
+        mk = make_hid_world(drv, kinds, True, None, False, nloss=0, tail=300, start_seq=start_seq, cancel=True, cancel_who=who, eager=who > 0)
         for ch, (w, obs) in explore(lambda c: execute(mk, c), bound):
             outs.add(judge_hid(res, cfg, w, obs))
             res["evaluations"] += 1
@@ -411,7 +417,8 @@ def replay(case):
     if t == "hid":
         cfg = {k: v for k, v in case.items() if k != "t"}
         if cfg.get("cancel"):
-            mk = make_hid_world(cfg["driver"], tuple(cfg["kinds"]), True, None, False, nloss=0, tail=300, start_seq=cfg["start_seq"], cancel=True)
+            mk = make_hid_world(cfg["driver"], tuple(cfg["kinds"]), True, None, False, nloss=0, tail=300, start_seq=cfg["start_seq"], cancel=True,
+                                cancel_who=cfg.get("cancel_who", 0), eager=cfg.get("eager", False))
         else:
             mk = make_hid_world(cfg["driver"], tuple(cfg["kinds"]), cfg["exc_on"], cfg["limit"], cfg["ret"], cfg.get("nloss", 1))
         for ch, (w, obs) in explore(lambda c: execute(mk, c), cfg.get("bound", 2)):
